@@ -19,12 +19,18 @@ ALL_OPS = ["KX", "KY", "S", "SR", "SC", "BYE", "CL", "RcR", "RcC", "RvR", "RfR",
 GATES = ["send", "send_rtp", "send_rtcp", "sync_bye", "bridge", "recv_rtp", "recv_rtcp", "AuthFailOpen"]
 
 # tier -> list of (label, constants, tlc mode)
+# Reps: every inbound action of a behaviour is a burst of that many packets of its class ("the first n are dropped,
+# later ones leak": rate-limited failure handling, counters, caches on an ingress gate)
 CFG = {
     "quick": [
         ("all-modes/len4", dict(ReqX="{TRUE, FALSE}", ReqY="{TRUE, FALSE}", MaxLen=4, MaxGen=2, Ops=ALL_OPS), {}),
+        ("all-modes/len3/bursts", dict(ReqX="{TRUE, FALSE}", ReqY="{TRUE, FALSE}", MaxLen=3, MaxGen=2, Ops=ALL_OPS,
+                                        Reps="{4, 5, 101}"), {}),
     ],
     "thorough": [
         ("all-modes/len4", dict(ReqX="{TRUE, FALSE}", ReqY="{TRUE, FALSE}", MaxLen=4, MaxGen=2, Ops=ALL_OPS), {}),
+        ("all-modes/len4/bursts", dict(ReqX="{TRUE, FALSE}", ReqY="{TRUE, FALSE}", MaxLen=4, MaxGen=2, Ops=ALL_OPS,
+                                        Reps="{4, 5, 101}"), {}),
         ("required/len5", dict(ReqX="{TRUE}", ReqY="{TRUE, FALSE}", MaxLen=5, MaxGen=2, Ops=ALL_OPS), {}),
         ("all-modes/sim-len12", dict(ReqX="{TRUE, FALSE}", ReqY="{TRUE, FALSE}", MaxLen=12, MaxGen=3, Ops=ALL_OPS),
          # (in simulation mode TLC evaluates the emitting invariant on every candidate successor of the last state,
@@ -109,6 +115,7 @@ CONSTANTS
   MaxLen = {c['MaxLen']}
   MaxGen = {c['MaxGen']}
   Ops = {setstr(c['Ops'])}
+  Reps = {c.get('Reps', '{1}')}
   Deviations = {setstr(deviations)}
 INVARIANTS TypeOK NoClearEgress NothingBeforeKeys NoClearIngress AllowedSound {'Replay' if emit else 'NoReplay'}
 PROPERTIES StepInside
@@ -240,7 +247,7 @@ def run(tier):
                 if nontrivial(o):
                     nontriv.add(hashlib.blake2b(line.encode(), digest_size=8).digest())
                 if (i % 50021 == 7 or (o["rx"] and i % 30011 == 13)) and len(ck.cov["samples"]) < 6:
-                    ck.cov["samples"].append(f"required X={o['rx']} Y={o['ry']}: " + " ".join(
+                    ck.cov["samples"].append(f"required X={o['rx']} Y={o['ry']} burst={o.get('rep', 1)}: " + " ".join(
                         f"{st[0]}[wire={st[1] or '-'} sinks={st[2] or '-'}]" for st in o["h"]))
         if not mode and not res["finished"]:
             exhaustive = False   # (simulation runs are extra; the exhaustive claim is about the bounded runs)
